@@ -98,9 +98,8 @@ def run_case(item):
     carg = cand.values.tolist() if 'candset_not_df' in faults else cand
     clk = 'nope' if 'cand_l_key' in faults else 'l_id'
     crk = 'nope' if 'cand_r_key' in faults else 'r_id'
-    snaps = [record.snapshot(d) for d in (ltab, rtab, cand)]
-    raised, result = '', None
-    try:
+    def invoke():
+        result = None
         if entry in JOIN_MEAS:
             kind = JOIN_MEAS[entry]
             op = '>='
@@ -155,6 +154,30 @@ def run_case(item):
             targ = ltab.values.tolist() if 'table_not_df' in faults else ltab
             attrs = ['s', 'nope'] if 'profile_attr' in faults else [None, ['s'], ['id', 's', 'x']][tid % 3]
             result = ssj.profile_table_for_join(targ, attrs)
+
+        return result
+    key_faults = faults & {'l_key_dup', 'l_key_nan', 'r_key_dup', 'r_key_nan'}
+    if key_faults and tid % 2 == 0 and entry not in ('SizeFilter', 'PrefixFilter', 'PositionFilter', 'SuffixFilter',
+                                                      'OverlapFilter', 'profile'):
+        # the same call is first made with valid keys on the SAME DataFrame objects; the key column is then made
+        # invalid in place (same number of rows) - the second call must still be rejected
+        good_l, good_r = tables(ctx['shape'], ctx['dtype'], set())
+        bad_l, bad_r = ltab['id'].tolist(), rtab['id'].tolist()
+        ltab['id'], rtab['id'] = good_l['id'].values, good_r['id'].values
+        try:
+            invoke()
+        except Exception:
+            pass
+        if 'l_key_dup' in faults or 'l_key_nan' in faults:
+            ltab['id'] = bad_l
+        if 'r_key_dup' in faults or 'r_key_nan' in faults:
+            rtab['id'] = bad_r
+        tok.n_calls = 0
+        tok.set_return_set(bool(fb))
+    snaps = [record.snapshot(d) for d in (ltab, rtab, cand)]
+    raised, result = '', None
+    try:
+        result = invoke()
     except Exception as exc:
         raised = type(exc).__name__
         gen['_exc'] = '%s: %s' % (raised, str(exc)[:200])
